@@ -15,6 +15,11 @@ import json, os, shutil, subprocess, sys, tempfile, concurrent.futures, argparse
 
 HERE = os.path.dirname(os.path.abspath(__file__))
 VERIF = os.path.dirname(HERE)
+# a private copy of the analyser: rebuilding bin/dcmcheck during a long run must not mix versions
+import tempfile, atexit
+BIN = os.path.join(tempfile.mkdtemp(prefix="dcm-bin-", dir=os.environ.get("TMPDIR", "/tmp")), "dcmcheck")
+shutil.copy2(os.path.join(VERIF, "bin", "dcmcheck"), BIN)
+atexit.register(lambda: shutil.rmtree(os.path.dirname(BIN), ignore_errors=True))
 REPO = os.environ.get("VERIF_REPO", "/repo")
 
 def load_catalogue():
@@ -41,7 +46,7 @@ def run_one(entry):
         results = []
         ok = True
         for prop in entry["props"]:
-            r = subprocess.run([os.path.join(VERIF, "bin", "dcmcheck"), "-prop", prop, "-repo", copy, "-verif", VERIF, "-no-evidence"],
+            r = subprocess.run([BIN, "-prop", prop, "-repo", copy, "-verif", VERIF, "-no-evidence"],
                                capture_output=True, text=True)
             out = r.stdout + r.stderr
             viol = [l for l in out.splitlines() if l.startswith("  rule=")]
